@@ -177,10 +177,30 @@ def _rotvec(ctx, py):
     def body():
         with rdomain(py), record_divisors() as divs:
             rv, keep, mat = _run_rotvec(py, [RSym(s) for s in vs])
-        frame_ok = all(a is b for a, b in zip(rv, keep)) and not any(c is POISON for c in mat.reshape(-1))
-        return flat(mat), frame_ok, list(divs)
-    paths = explore(body)
-    ctx.paths += len(paths)
+        unwritten = [k for k, c in enumerate(mat.reshape(-1)) if c is POISON]
+        frame_ok = all(a is b for a, b in zip(rv, keep)) and not unwritten
+        return (flat(mat) if not unwritten else None), frame_ok, list(divs), unwritten
+    paths = [(pa, r[:3]) for pa, r in explore(body) if not r[3]]
+    skipped = [(pa, r[3]) for pa, r in explore(body) if r[3]]
+    ctx.paths += len(paths) + len(skipped)
+    for pa, cells_ in skipped:
+        ctx.ob("C17.rotvec.writes_every_cell", "f", False, "symbolic-execution(output array starts as poison)", time.time() - t0,
+               "on the path %s the function returns without writing cells %s of the output array (the caller's array keeps whatever it held)" % ([str(c_) + (" is %s" % d_) for c_, d_ in pa.conds], cells_),
+               cex=dict(path=[str(c_) for c_, d_ in pa.conds], cells_not_written=cells_), native=_rotvec_unwritten_native(py))
+    if not skipped:
+        ctx.ob("C17.rotvec.writes_every_cell", "f", True, "symbolic-execution(output array starts as poison)", 0.0, "all nine cells of the output array are written on every path")
+    # an exact special case `norm2 == 0` (a null set) may be split off: on it the result must be the identity exactly;
+    # elsewhere the excluded point is dropped from the path condition
+    zero_paths = [(pa, r) for pa, r in paths if any(isinstance(c_, sp.Eq) and d_ for c_, d_ in pa.conds)]
+    paths = [(pa, r) for pa, r in paths if not any(isinstance(c_, sp.Eq) and d_ for c_, d_ in pa.conds)]
+    for pa, (cells, frame_ok, divs) in zero_paths:
+        at0 = [sp.sympify(c_).subs({v1: 0, v2: 0, v3: 0}) for c_ in cells]
+        ok0 = all(sp.simplify(a_ - b_) == 0 for a_, b_ in zip(at0, list(sp.eye(3)))) and frame_ok
+        ctx.ob("C17.rotvec.exact_zero_case", "a", ok0, "symbolic-execution", 0.0,
+               "the path taken only by the null rotation vector returns the identity exactly: %s" % [str(a_) for a_ in at0],
+               cex=None if ok0 else dict(cells=[str(a_) for a_ in at0]), native=None if ok0 else _rotvec_unwritten_native(py))
+    for pa, _ in paths:
+        pa.conds[:] = [(c_, d_) for c_, d_ in pa.conds if not (isinstance(c_, (sp.Eq, sp.Ne)))]
     ok2 = len(paths) == 2 and all(len(pa.conds) == 1 for pa, _ in paths)
     ctx.ob("C17.rotvec.paths", "c", ok2, "path-enumeration", time.time() - t0,
            "%d paths: %s" % (len(paths), [str(pa.conds) for pa, _ in paths]),
@@ -273,6 +293,19 @@ def _expm_mp(vec):
         out = [[(1.0 if i == j else 0.0) + k1 * K[i][j] + k2 * sum(K[i][k] * K[k][j] for k in range(3))
                 for j in range(3)] for i in range(3)]
         return [[float(x) for x in row] for row in out]
+
+
+def _rotvec_unwritten_native(py):
+    """the output array is the caller's and may hold anything: exact special vectors into a pre-filled array"""
+    bad = None
+    for vec in ([0.0, 0.0, 0.0], [-0.0, 0.0, 0.0], [1e-300, 0.0, 0.0], [0.0, 0.0, 1e-9]):
+        m = np.full((3, 3), 7.5)
+        py._numba_integrate.mat_from_rotvec(np.array(vec, dtype=float), m)
+        w = np.array(_expm_mp(vec), dtype=float)
+        if not np.allclose(m, w, rtol=0, atol=1e-15):
+            bad = dict(reproduced=True, inputs=vec, output_array_prefilled_with=7.5, returned=m.tolist(), exponential_map=w.tolist())
+            break
+    return bad or dict(reproduced=False)
 
 
 def _rotvec_native(py, pt, i, big):
